@@ -86,11 +86,11 @@ Definition committed_in (ws : list write) (t : N) : option N :=
   match find (fun w => w_start w =? t) ws with Some w => Some (w_commit w) | None => None end.
 (* async commit: CheckSecondaryLocks on one secondary key: still locked by t (its min_commit_ts), or the lock
    is missing (then the key's commit record of t, if any, decides; a pessimistic lock counts as missing) *)
-Inductive sec_answer := SLocked (mc : N) | SMissing (c : option N).
+Inductive sec_answer := SLocked (mc : N) (is_async : bool) | SMissing (c : option N).
 Definition sec_answer_of (st : store) (t : N) (k : list N) : sec_answer :=
   match find_key st k with
   | Some r => match k_lock r with
-              | Some l => if (l_start l =? t) && negb (is_pess l) then SLocked (l_min_commit l)
+              | Some l => if (l_start l =? t) && negb (is_pess l) then SLocked (l_min_commit l) (l_async l)
                           else SMissing (committed_in (k_writes r) t)
               | None => SMissing (committed_in (k_writes r) t)
               end
@@ -101,10 +101,17 @@ Fixpoint decide (acc : N) (answers : list sec_answer) : option N :=
   match answers with
   | [] => Some acc
   | SMissing c :: _ => c
-  | SLocked mc :: rest => decide (N.max acc mc) rest
+  | SLocked mc _ :: rest => decide (N.max acc mc) rest
   end.
+Definition is_missing (a : sec_answer) : bool := match a with SMissing _ => true | SLocked _ _ => false end.
+Definition is_nonasync (a : sec_answer) : bool := match a with SLocked _ false => true | _ => false end.
+(* the nonAsyncCommitLock fallback of checkAllSecondaries: every secondary still locked but one of the locks is not an
+   async-commit lock (the owner fell back to 2PC) => CheckTxnStatus(force_sync_commit) on the primary: with current
+   ts = max the primary is rolled back, and so is the transaction *)
+Definition fallback_now (answers : list sec_answer) : bool := negb (existsb is_missing answers) && existsb is_nonasync answers.
+Definition sec_answers (st : store) (l : lock) : list sec_answer := map (sec_answer_of st (l_start l)) (l_secs l).
 Definition async_decide (st : store) (l : lock) : option N :=
-  decide (l_min_commit l) (map (sec_answer_of st (l_start l)) (l_secs l)).
+  if fallback_now (sec_answers st l) then None else decide (l_min_commit l) (sec_answers st l).
 
 (* the code's asyncResolveData.addKeys, one CheckSecondaryLocks answer (one region) at a time, in delivery order:
    RLocked = every requested key still locked (their min_commit_ts), RMissing c = some lock missing, commit ts c (0 = rolled back) *)
@@ -128,6 +135,14 @@ Fixpoint add_all (d : async_data) (answers : list region_answer) : option async_
 Definition check_all_secondaries (primary_min_commit : N) (answers : list region_answer) : option N :=
   match add_all (mkAD primary_min_commit false) answers with Some d => Some (ad_commit d) | None => None end.
 
+(* ... and with the nonAsyncCommitLock error: an "all locked" answer that contains a lock which is not an async-commit
+   lock makes addKeys return that error, checkAllSecondaries returns it, and BatchResolveLocks falls back to
+   CheckTxnStatus(force_sync_commit) on the primary *)
+Inductive cas_result := CasDecided (c : N) | CasFallback | CasError.
+Definition check_all_secondaries_f (primary_min_commit : N) (answers : list (region_answer * bool)) : cas_result :=
+  if existsb (fun a => match a with (RLocked _, true) => true | _ => false end) answers then CasFallback
+  else match check_all_secondaries primary_min_commit (map fst answers) with Some c => CasDecided c | None => CasError end.
+
 (* outcome of transaction (primary p, start t): Some commit_ts, or None (rolled back / to be rolled back).
    While an async-commit primary lock is in place the secondaries decide. *)
 Definition committed_at (st : store) (p : list N) (t : N) : option N :=
@@ -141,13 +156,15 @@ Definition committed_at (st : store) (p : list N) (t : N) : option N :=
 
 (* CheckTxnStatus(primary p, lock ts t, current ts = max, rollback-if-not-exist): a lock of t on p is
    removed whatever its ttl -- except an async-commit primary, which is never rolled back: then
-   checkAllSecondaries decides (the lock stays until its region is resolved); otherwise the commit record decides *)
+   checkAllSecondaries decides (the lock stays until its region is resolved), unless it hits the nonAsyncCommitLock
+   fallback (force-sync status check: the primary IS rolled back); otherwise the commit record decides *)
 Definition status_check (st : store) (p : list N) (t : N) : store * option N :=
   match find_key st p with
   | Some r =>
       match k_lock r with
       | Some l => if l_start l =? t then
-                    (if l_async l && negb (is_pess l) then (st, async_decide st l) else (upd_key st p clear_lock, None))
+                    (if l_async l && negb (is_pess l) && negb (fallback_now (sec_answers st l)) then (st, async_decide st l)
+                     else (upd_key st p clear_lock, None))
                   else (st, committed_in (k_writes r) t)
       | None => (st, committed_in (k_writes r) t)
       end
@@ -350,6 +367,14 @@ Fixpoint gc_pass (fuel : nat) (sp : N) (limit : nat) (tasks : list ((list N * li
       end
   end.
 
+(* KVStore.GC(expected): PD may grant a lower txn safe point (GC barriers); lock resolution, and the GC safe point
+   reported back, use the granted value when it is lower *)
+Definition gc_safe_point (expected granted : N) : N := if granted <? expected then granted else expected.
+Definition gc_full (fuel : nat) (expected granted : N) (limit : nat) (tasks : list ((list N * list N) * list iter_oracle)) (st : store)
+  : option (store * N) :=
+  let sp := gc_safe_point expected granted in
+  match gc_pass fuel sp limit tasks st with Some st' => Some (st', sp) | None => None end.
+
 (* the store in which every lock with start <= sp has been resolved by its transaction's outcome:
    the only possible result of a complete GC pass, whatever the schedule *)
 Definition resolve_by_outcome (st0 : store) (sp : N) (r : krec) : krec :=
@@ -409,7 +434,7 @@ Definition opt_eqb (a b : option N) : bool :=
 Definition w4_rec (st : store) (r : krec) : bool :=
   match k_lock r with
   | Some l => if l_async l then
-                let ans := map (sec_answer_of st (l_start l)) (l_secs l) in
+                let ans := sec_answers st l in
                 negb (is_pess l) &&
                 forallb (fun a => forallb (fun b => match a, b with SMissing c1, SMissing c2 => opt_eqb c1 c2 | _, _ => true end) ans) ans
               else true
